@@ -245,7 +245,25 @@ def call_table():
     from pyModeS.decoder.bds import bds53
     for nm in ("is53", "hdg53", "ias53", "mach53", "tas53", "vr53"):
         t["bds53." + nm] = getattr(bds53, nm)
+    t["rtl.demodulate"] = rtl_demodulate
     return t
+
+
+def rtl_demodulate(frames):
+    """the software demodulator is part of the library too, and it is built on the shared helpers (bin2hex, df, crc, icao): the
+    frames are pulse-position modulated into one clean sample buffer (amplitude 1, flat noise 0.02) and what the buffer processor
+    returns is compared between the two configurations"""
+    from ..ref import ppm
+    from . import C19
+    buf = [0.02] * 400
+    for hx in frames:
+        n = len(hx) * 4
+        buf += [s if s > 0 else 0.02 for s in ppm.modulate(int(hx, 16), n, 1.0)] + [0.02] * (2 * n + 40)
+    r = C19.reader()
+    r.signal_buffer = buf
+    with contextlib.redirect_stdout(io.StringIO()):
+        out = r._process_buffer()
+    return [m[0] for m in out]
 
 
 _helper = {}
@@ -560,6 +578,9 @@ def cases(ctx):
                 if len(hx) == 28:
                     calls.append([extra, [hx]])
         long_ = [f_ for f_ in fset if len(f_) == 28]
+        ok_df = [f_ for f_ in fset if (int(f_[:2], 16) >> 3) in ((17, 20, 21) if len(f_) == 28 else (4, 5, 11))]
+        if ok_df:
+            calls.append(["rtl.demodulate", [ok_df[:6]]])
         for nm, a in PKG_HELPERS.items():
             if a is not None or long_:
                 calls.append(["pkg." + nm, a if a is not None else [long_[0]]])
